@@ -48,7 +48,7 @@ impl Inst {
     /// Shape classes in which the unchanged tree showed no inversion over the calibration sample.
     pub fn is_clean_shape(&self) -> bool {
         let k = self.n_classes_used();
-        k <= 1 || (self.workers.len() == 1 && k <= 2)
+        k <= 2
     }
 }
 
@@ -118,10 +118,20 @@ pub fn gen_inst(rng: &mut Rng, style: u64) -> Inst {
     let target = capacity * rng.range(5, 30) as u32 / 10;
     let mut demand = 0u32;
     let mut guard = 0;
+    // in half of the instances big requests tend to have high priority (then small low-priority
+    // tasks are what fits beside them: the situation the property is about)
+    let correlated = rng.chance(50, 100);
+    let mut by_size: Vec<usize> = (0..classes.len()).collect();
+    by_size.sort_by_key(|c| classes[*c][0] + classes[*c][1] * 2);
     while demand < target && guard < 40 {
         guard += 1;
-        let p = rng.below(n_levels as u64) as i32;
         let c = rng.usize_below(classes.len());
+        let p = if correlated && rng.chance(80, 100) {
+            let rank = by_size.iter().position(|x| *x == c).unwrap() as i32;
+            (rank * n_levels / classes.len() as i32 + rng.below(2) as i32).min(n_levels - 1)
+        } else {
+            rng.below(n_levels as u64) as i32
+        };
         let n = match rng.below(6) {
             0 => rng.range(3, 9) as u32,
             _ => rng.range(1, 2) as u32,
@@ -156,6 +166,8 @@ pub struct Judged {
     pub exception_used: bool,
     pub pairs_checked: u64,
     pub busy_placed: usize,
+    /// "plain" or "same-worker-reservation" (the worker is kept for a still higher waiting task)
+    pub kind: &'static str,
 }
 
 fn fits(need: &[u64; 3], free: &[u64; 3]) -> bool {
@@ -284,7 +296,23 @@ pub async fn run_inst(inst: &Inst, tmp: &std::path::Path) -> Result<Judged, Stri
                 judged.exception_used = true;
                 continue;
             }
-            if judged.inversion.is_none() {
+            // is the worker being kept for a still higher-priority waiting task that does not fit yet?
+            let reserved_for_higher = waiting.iter().any(|(_, gp, gc)| {
+                *gp > *hp && fits(&need_of(*gc), total.get(w).unwrap_or(&[0; 3])) && {
+                    let mut f = free_before.get(w).copied().unwrap_or([0; 3]);
+                    for (_, p, c, dw) in &dispatched {
+                        if *dw == *w && *p >= *gp {
+                            let n = need_of(*c);
+                            for k in 0..3 {
+                                f[k] = f[k].saturating_sub(n[k]);
+                            }
+                        }
+                    }
+                    !fits(&need_of(*gc), &f)
+                }
+            });
+            if judged.inversion.is_none() || (!reserved_for_higher && judged.kind == "same-worker-reservation") {
+                judged.kind = if reserved_for_higher { "same-worker-reservation" } else { "plain" };
                 judged.inversion = Some(format!(
                     "task {lid} (priority {lp}, class {lc} = {:?}) was dispatched to worker {w} while task {hid} (priority {hp}, class {hc} = {:?}) stays ready; worker {w} had {:?} free before the decision and {:?} left for priority >= {hp}; dispatched (task,prio,class,worker) = {:?}",
                     inst.classes[*lc], inst.classes[*hc], free_before.get(w), free_for_h(*w), dispatched
@@ -326,7 +354,8 @@ pub fn main(args: &[String]) -> i32 {
     let deadline = start + Duration::from_secs(secs);
     let tmp = std::path::PathBuf::from(std::env::var("HQV_TMP").unwrap_or_else(|_| "/tmp".into())).join(format!("hqv-sched-{}", std::process::id()));
     std::fs::create_dir_all(&tmp).unwrap();
-    let corpus_size = if tier == "thorough" { 40_000 } else { 4_000 };
+    let _ = &tier;
+    let corpus_size = 6_000;
     let corpus_all = corpus(corpus_size);
     let mine: Vec<Inst> = corpus_all.into_iter().enumerate().filter(|(i, _)| (*i as u64) % nshards == shard).map(|(_, x)| x).collect();
     let n_corpus = mine.len();
@@ -420,12 +449,13 @@ pub fn main(args: &[String]) -> i32 {
             None => held += 1,
             Some(detail) => {
                 e.1 += 1;
+                c(&mut cov, &format!("inversions_seen.{}", j.kind), 1);
                 let verdict_bearing = source != "random" || clean;
                 if calibrate || verdict_bearing {
                     violated += 1;
                     // corpus / regress members are identified by their instance key; a random
                     // instance of a clean shape by the shape rule
-                    let sig = if source == "random" { format!("V1-inversion-in-clean-shape:{}", inst.key()) } else { format!("V1-inversion:{}", inst.key()) };
+                    let sig = if source == "random" { format!("V1-inversion-in-clean-shape({}):{}", j.kind, inst.key()) } else { format!("V1-inversion({}):{}", j.kind, inst.key()) };
                     if seen.insert(sig.clone()) {
                         let path = save_replay_value(&replay_dir, &prop, "V1-inversion", rng::mix(runs ^ seed), &serde_json::to_value(&inst).unwrap());
                         violations.push(json!({"signature": sig, "detail": detail, "seed": seed, "source": source, "replay": path}));
